@@ -366,11 +366,24 @@ func genFrameInput(r *gen.R) []byte {
 		return r.Bytes(r.Range(0, 64)) // raw noise
 	case 1:
 		return st.Bytes
-	case 2:
+	case 2, 4:
 		// hostile lengths
 		f := wire.Frame{Fin: r.Bool(), Op: []int{0, 1, 2, 8, 9, 10}[r.Intn(6)], Masked: r.Bool(), Rsv1: r.Bool(), Payload: r.Bytes(r.Range(0, 40)), HasClaim: true, LenForm: []int{7, 16, 64}[r.Intn(3)]}
-		f.ClaimLen = []uint64{0, 1, 125, 126, 127, 65535, 65536, 1 << 31, 1 << 32, 1 << 62, 1<<63 - 1, 1 << 63, 1<<64 - 1}[r.Intn(13)]
-		return append(append([]byte(nil), st.Bytes[:r.Intn(len(st.Bytes)+1)]...), wire.Append(nil, f)...)
+		// claimed lengths far beyond what is delivered (kept <= 64 MiB or absurdly large so that a
+		// library that allocated by the claim would show in the allocation counter or panic in
+		// makeslice, without exhausting the machine)
+		f.ClaimLen = []uint64{0, 1, 125, 126, 127, 65535, 65536, 1 << 22, 1 << 24, 1 << 26, 1 << 62, 1<<63 - 1, 1 << 63, 1<<64 - 1}[r.Intn(14)]
+		if r.Bool() {
+			f.LenForm = 64
+			f.Masked = fromClient
+			f.Op = 1 + r.Intn(2)
+		}
+		// after a prefix that ends on a frame boundary (or mid-frame, one time in four)
+		cut := st.FrameOff[r.Intn(len(st.FrameOff))]
+		if r.Chance(1, 4) {
+			cut = r.Intn(len(st.Bytes) + 1)
+		}
+		return append(append([]byte(nil), st.Bytes[:cut]...), wire.Append(nil, f)...)
 	case 3:
 		// compressed garbage / deflate bombs
 		p := bytes.Repeat([]byte{0}, r.Range(1, 2000))
